@@ -123,10 +123,12 @@ func init() {
 		ID:    "C06",
 		Units: []string{"fasthttp.(*RequestHeader).SetCookie", "fasthttp.(*RequestHeader).collectCookies", "fasthttp.parseRequestCookies", "fasthttp.appendRequestCookieBytes", "fasthttp.(*cookieScanner)", "fasthttp.decodeCookieArg", "fasthttp.validCookieValue", "fasthttp.(*RequestHeader).peek"},
 		Runs: []Run{
-			{Pkg: "fasthttp", Func: "vhC06RequestCookies", Quick: map[string]int{"cookies": 2, "keyLen": 1, "valLen": 2}, Thorough: map[string]int{"cookies": 2, "keyLen": 1, "valLen": 2}},
+			{Pkg: "fasthttp", Func: "vhC06RequestCookies", Quick: map[string]int{"cookies": 2, "keyLen": 1, "valLen": 1}, Thorough: map[string]int{"cookies": 2, "keyLen": 1, "valLen": 2}, PathCap: 1500000},
+			{Pkg: "fasthttp", Func: "vhC06ResponseCookie", Quick: map[string]int{"keyLen": 1, "valLen": 1, "pathLen": 2}, Thorough: map[string]int{"keyLen": 1, "valLen": 2, "pathLen": 3}, PathCap: 1500000},
 		},
 		Assume: []string{
-			"request-cookie half only: up to `cookies` SetCookie calls with arbitrary key/value bytes; the server side is a second RequestHeader given the serialised Cookie value; response Set-Cookie attribute round trips (time formatting) are outside this check",
+			"request cookies: up to `cookies` SetCookie calls with arbitrary key/value bytes; the server side is a second RequestHeader given the serialised Cookie value, fresh or reused after an earlier request with cookies",
+			"response cookies: Cookie built from arbitrary key (≤ keyLen) and value (≤ valLen) bytes plus one of {no string attribute, domain ≤ valLen bytes, path '/' or '/%' + ≤ pathLen bytes through SetPath or SetPathBytes} and one of 8 flag combinations (Secure, HttpOnly, Partitioned, the four SameSite modes, Max-Age 5 / -1); serialised through ResponseHeader.SetCookie and parsed by Cookie.ParseBytes; Expires (time formatting) and several string attributes at once are outside this check",
 		},
 	})
 	register(&Property{
